@@ -20,6 +20,8 @@ func init() { register("C01", c01) }
 func c01(tier string) []*explore.Scenario {
 	var out []*explore.Scenario
 	out = append(out, c16LateAttach("C01", "Unary", 1), c16LateAttachD("C01", "Unary", 1, false, true))
+	out = append(out, c05EmptyReplies("C01", 1))
+	out = append(out, c16ReattachedHealthy("C01", 3, 1))
 	out = append(out, c01TwoServes(1, 16, 2), c01TwoServes(2, 16, 1), c01TwoServes(2, 0, 1), c01TwoServes(12, 64, 0))
 	for _, ser := range []bool{false, true} {
 		for _, cp := range []int{0, 64} {
